@@ -742,6 +742,9 @@ struct JobOut {
 }
 
 const WATCHDOG_SECS: u64 = 10;
+/// a child that burns no CPU (blocked) is given this long before it counts as hung
+const WATCHDOG_WALL_SECS: u64 = 180;
+
 /// address-space limit of the decoding process: an allocation of about 0.5 GiB or more sized by an input
 /// field fails (and aborts the process) instead of zero-filling gigabytes
 const CHILD_VMEM_KB: u64 = 600_000;
@@ -801,9 +804,16 @@ fn run_job(exe: &std::path::Path, dir: &str, seed: u64, job: &Job, worker: usize
         let mut in_flight: Option<usize> = None;
         let mut done = false;
         let mut hung = false;
+        // the watchdog judges by the CPU time the child has burnt since its last sign of life, not
+        // by wall time alone: on a loaded machine a starved child is slow, not hung
+        let pid = child.id();
+        let mut cpu_mark = proc_cpu_secs(pid);
+        let mut wall_mark = std::time::Instant::now();
         loop {
             match rx.recv_timeout(Duration::from_secs(WATCHDOG_SECS)) {
                 Ok(line) => {
+                    cpu_mark = proc_cpu_secs(pid);
+                    wall_mark = std::time::Instant::now();
                     let p: Vec<&str> = line.split('\t').collect();
                     match p[0] {
                         "B" => in_flight = p.get(1).and_then(|s| s.parse().ok()),
@@ -828,6 +838,13 @@ fn run_job(exe: &std::path::Path, dir: &str, seed: u64, job: &Job, worker: usize
                     }
                 }
                 Err(mpsc::RecvTimeoutError::Timeout) => {
+                    let burnt = match (proc_cpu_secs(pid), cpu_mark) {
+                        (Some(now), Some(then)) => now - then,
+                        _ => f64::INFINITY, // no /proc: fall back to wall time
+                    };
+                    if burnt < WATCHDOG_SECS as f64 * 0.8 && wall_mark.elapsed() < Duration::from_secs(WATCHDOG_WALL_SECS) {
+                        continue;
+                    }
                     hung = true;
                     let _ = child.kill();
                     break;
@@ -845,7 +862,7 @@ fn run_job(exe: &std::path::Path, dir: &str, seed: u64, job: &Job, worker: usize
         let stderr = std::fs::read_to_string(&errpath).unwrap_or_default();
         let tail: String = stderr.chars().rev().take(300).collect::<String>().chars().rev().collect::<String>().replace(['\t', '\n'], " ");
         let (class, text) = if hung {
-            ("hang".to_string(), format!("no result within {WATCHDOG_SECS} s (endless loop or unbounded work on a small input)"))
+            ("hang".to_string(), format!("no result after {WATCHDOG_SECS} s of CPU time (or {WATCHDOG_WALL_SECS} s blocked) on one case (endless loop or unbounded work on a small input)"))
         } else if stderr.contains("memory allocation of") {
             let n = stderr.split("memory allocation of ").nth(1).and_then(|s| s.split(' ').next()).unwrap_or("?").to_string();
             let frame = stderr.lines().map(|l| l.trim()).find(|l| l.contains(": noodles_")).and_then(|l| l.split_once(": ")).map(|x| x.1.to_string()).unwrap_or_else(|| "?".into());
